@@ -32,7 +32,7 @@ IsarFaults == {"none", "malformed_xml", "type_cycle", "self_reference", "undefin
                "enum_without_members", "non_numeric_enum_value", "non_numeric_discriminator", "non_utf8",
                "division_by_zero", "size_names_type", "absurd_shift", "empty_member_name"}
 PatchFaults == {"none", "one_word_line", "unknown_action", "wrong_param_count", "member_not_found", "non_integer_index",
-                "absent_message", "empty_patch", "non_utf8_patch", "bad_size_expression"}
+                "absent_message", "empty_patch", "non_utf8_patch", "bad_size_expression", "valid_rules"}
 OptionFaults == {"none", "no_input", "no_output", "missing_input_file", "isar_and_sack", "missing_include_dir",
                  "missing_patch_file", "unknown_option"}
 
@@ -52,7 +52,7 @@ DetectedIn(fe, f) ==
                                  "non_numeric_discriminator"} -> "XRef"
       [] fe = "isar" /\ f \in {"bad_dimension", "member_without_type"} -> "Sizes"
       [] fe = "isar" -> "-"              \* undefined type, missing include: warnings
-PatchDetectedIn(f) == IF f \in {"none", "absent_message", "empty_patch"} THEN "-" ELSE "Patch"
+PatchDetectedIn(f) == IF f \in {"none", "absent_message", "empty_patch", "valid_rules"} THEN "-" ELSE "Patch"
 OptionDetectedIn(f) == IF f = "none" THEN "-" ELSE "Options"
 
 VARIABLES fe, fault, pos, pfault, ofault, phase, outcome
